@@ -1,45 +1,52 @@
 ------------------------------ MODULE MC_Acl ------------------------------
-(* Exhaustive model of Acl (C07).  Every rule list over NPos positions and *)
-(* a covering rule domain is reached by Add/Remove from the empty list,    *)
-(* for both implicit actions; from every list every packet of the domain   *)
-(* is checked.  The *design* computes a verdict by scanning the positions  *)
-(* in order and stopping at the first match (ScanDecider); TLC checks that *)
-(* this agrees with the declarative Verdict of Acl.tla and that the three  *)
-(* actions satisfy the C07 clauses (action properties over `last', the     *)
+(* Exhaustive model of Acl (C07), both implicit actions, NPos positions.   *)
+(*                                                                         *)
+(* The *design* computes a verdict by scanning the positions in order and  *)
+(* stopping at the first match (ScanDecider).  TLC checks that this agrees *)
+(* with the declarative Decider/Verdict of Acl.tla for every packet of the *)
+(* domain in every reachable list (invariant ScanIsLowestMatch), and that  *)
+(* the actions satisfy the C07 clauses (action properties over `last', the *)
 (* record of the step just taken; `last' carries no behaviour and is       *)
 (* hidden by VIEW in the exhaustive cfg, as are the counters).             *)
 (*                                                                         *)
-(* Domain = "cover": the exhaustive rule domain (about 40 rules: each      *)
-(*   field alone, the wildcard shapes, and mixed rules; both actions).     *)
-(* Domain = "full" : the full product over 2-bit addresses with masks,     *)
-(*   4 protocols, ports {any,0,53,80} - used with -simulate (stimulus) and *)
-(*   with small NPos in the thorough tier.                                 *)
+(* `mode' is a configuration variable (one run sweeps both):               *)
+(*  "fill": every list over the *covering* rule domain (each field alone,  *)
+(*          every wildcard shape, mixed rules; both actions; 42 rules) is  *)
+(*          built once, positions filled in ascending order; all packets   *)
+(*          are judged in every such list by the invariant.                *)
+(*  "free": every interleaving of Add (incl. overwrite) / Remove / Check   *)
+(*          over the *core* rule domain (10 rules).                        *)
+(* Domain = "product" (a 1440-rule product domain, packets with port 0) is *)
+(* used with -simulate only (stimulus for the implementation).             *)
 EXTENDS Acl, TLC
 
-CONSTANTS NPos, MaxRules, Domain
+CONSTANTS NPos, MaxRules, Modes, Domain
 
-VARIABLE last
-mcvars == <<npos, implicit, acl, hits, ihits, last>>
+VARIABLES mode, last
+mcvars == <<npos, implicit, acl, hits, ihits, mode, last>>
 
 Acts == {"permit", "deny"}
 
 R(a, q, s, sm, d, dm, sp, dp) ==
     [action |-> a, proto |-> q, src |-> s, smask |-> sm, dst |-> d, dmask |-> dm, sport |-> sp, dport |-> dp]
 
-AddrSpecsFull == {<<AnyN, AnyN>>} \cup ((0 .. 3) \X {AnyN, 0, 1, 2, 3})
-PortsFull == {AnyN, 0, 53, 80}
-
-\* match parts <<proto, src, smask, dst, dmask, sport, dport>> of the covering domain
+\* match parts <<proto, src, smask, dst, dmask, sport, dport>>
+CoreParts ==
+    {   <<AnyP, AnyN, AnyN, AnyN, AnyN, AnyN, AnyN>>,
+        <<"tcp", AnyN, AnyN, AnyN, AnyN, AnyN, 80>>,
+        <<AnyP, 2, 1, AnyN, AnyN, AnyN, AnyN>>,
+        <<"icmp", AnyN, AnyN, 3, AnyN, AnyN, AnyN>>,
+        <<"udp", 1, AnyN, 0, 2, 0, AnyN>>
+    }
 CoverParts ==
-    {   <<AnyP, AnyN, AnyN, AnyN, AnyN, AnyN, AnyN>>,        \* nothing specified
-        \* protocol alone
+    CoreParts \cup
+    {   \* protocol alone
         <<"tcp", AnyN, AnyN, AnyN, AnyN, AnyN, AnyN>>,
         <<"udp", AnyN, AnyN, AnyN, AnyN, AnyN, AnyN>>,
         <<"icmp", AnyN, AnyN, AnyN, AnyN, AnyN, AnyN>>,
         \* source alone: exact, exact with zero mask, low-bit range, high-bit (non-contiguous) range, everything
         <<AnyP, 1, AnyN, AnyN, AnyN, AnyN, AnyN>>,
         <<AnyP, 1, 0, AnyN, AnyN, AnyN, AnyN>>,
-        <<AnyP, 2, 1, AnyN, AnyN, AnyN, AnyN>>,
         <<AnyP, 1, 2, AnyN, AnyN, AnyN, AnyN>>,
         <<AnyP, 0, 3, AnyN, AnyN, AnyN, AnyN>>,
         \* destination alone
@@ -47,49 +54,67 @@ CoverParts ==
         <<AnyP, AnyN, AnyN, 3, 1, AnyN, AnyN>>,
         <<AnyP, AnyN, AnyN, 0, 2, AnyN, AnyN>>,
         \* ports alone
-        <<AnyP, AnyN, AnyN, AnyN, AnyN, 53, AnyN>>,
-        <<AnyP, AnyN, AnyN, AnyN, AnyN, AnyN, 53>>,
+        <<AnyP, AnyN, AnyN, AnyN, AnyN, 0, AnyN>>,
+        <<AnyP, AnyN, AnyN, AnyN, AnyN, 80, AnyN>>,
+        <<AnyP, AnyN, AnyN, AnyN, AnyN, AnyN, 0>>,
         <<AnyP, AnyN, AnyN, AnyN, AnyN, AnyN, 80>>,
         \* mixed
-        <<"tcp", AnyN, AnyN, AnyN, AnyN, AnyN, 80>>,
-        <<"udp", AnyN, AnyN, AnyN, AnyN, 53, 53>>,
-        <<"icmp", 2, 1, AnyN, AnyN, AnyN, AnyN>>,
-        <<"tcp", 1, AnyN, 3, AnyN, AnyN, 80>>,
-        <<AnyP, 2, 1, 0, 2, AnyN, 53>>
+        <<"udp", AnyN, AnyN, AnyN, AnyN, 80, 80>>,
+        <<"tcp", 1, AnyN, 3, AnyN, AnyN, 80>>
     }
+ProductParts ==
+    {AnyP, "tcp", "udp", "icmp"}
+    \X {<<AnyN, AnyN>>, <<1, AnyN>>, <<1, 0>>, <<2, 1>>, <<1, 2>>}
+    \X {<<AnyN, AnyN>>, <<3, AnyN>>, <<0, 2>>}
+    \X {AnyN, 0, 80} \X {AnyN, 0, 53, 80}
 
-Rules ==
-    IF Domain = "cover"
-    THEN {R(a, t[1], t[2], t[3], t[4], t[5], t[6], t[7]) : a \in Acts, t \in CoverParts}
-    ELSE {R(a, q, s[1], s[2], d[1], d[2], sp, dp) :
-             a \in Acts, q \in {AnyP, "tcp", "udp", "icmp"}, s \in AddrSpecsFull, d \in AddrSpecsFull,
-             sp \in PortsFull, dp \in PortsFull}
+RulesOf(parts) == {R(a, t[1], t[2], t[3], t[4], t[5], t[6], t[7]) : a \in Acts, t \in parts}
+CoreRules  == RulesOf(CoreParts)
+CoverRules == RulesOf(CoverParts)
+ProductRules == {R(a, t[1], t[2][1], t[2][2], t[3][1], t[3][2], t[4], t[5]) : a \in Acts, t \in ProductParts}
 
-PktPorts == IF Domain = "cover" THEN {53, 80} ELSE {0, 53, 80}
+FreeRules == IF Domain = "product" THEN ProductRules ELSE CoreRules
+
+PktPorts == IF Domain = "product" THEN {0, 53, 80} ELSE {0, 80}
 Packets ==
     {[proto |-> q, src |-> s, dst |-> d, sport |-> sp, dport |-> dp] :
         q \in {"tcp", "udp"}, s \in 0 .. 3, d \in 0 .. 3, sp \in PktPorts, dp \in PktPorts}
     \cup {[proto |-> "icmp", src |-> s, dst |-> d, sport |-> NoPort, dport |-> NoPort] : s \in 0 .. 3, d \in 0 .. 3}
 
-\* the two formulations of the wildcard comparison agree on the whole 4-bit space
-ASSUME \A a \in 0 .. 15, b \in 0 .. 15, wc \in 0 .. 15 : MaskedEq(a, b, wc) = MaskedEqBits(a, b, wc, 4)
+\* the three formulations of the wildcard comparison agree on the whole 4-bit space
+ASSUME \A a \in 0 .. 15, b \in 0 .. 15, wc \in 0 .. 15 :
+          /\ MaskedEq(a, b, wc) = MaskedEqBits(a, b, wc, 4)
+          /\ MaskedEq(a, b, wc) = MaskedEqAnd(a, b, wc)
 
 NoEvent == [ev |-> "Init", pos |-> 0, rule |-> NoRule, pkt |-> <<>>, permit |-> FALSE, decider |-> Implicit]
 
 Init ==
     /\ \E imp \in Acts : AclInit(NPos, imp, Empty(NPos), Zero(NPos), 0)
+    /\ mode \in Modes
     /\ last = NoEvent
 
 NumRules == Cardinality({i \in Pos : acl[i] # NoRule})
 
 MCAdd(i, r) ==
+    /\ mode = "free"
     /\ acl[i] # NoRule \/ NumRules < MaxRules
     /\ Add(i, r, 0)
     /\ last' = [NoEvent EXCEPT !.ev = "Add", !.pos = i, !.rule = r]
+    /\ UNCHANGED mode
+
+\* "fill": position i is filled (or skipped) only when everything from i upward is still empty
+MCFill(i, r) ==
+    /\ mode = "fill"
+    /\ \A j \in Pos : j >= i => acl[j] = NoRule
+    /\ Add(i, r, 0)
+    /\ last' = [NoEvent EXCEPT !.ev = "Add", !.pos = i, !.rule = r]
+    /\ UNCHANGED mode
 
 MCRemove(i) ==
+    /\ mode = "free"
     /\ Remove(i)
     /\ last' = [NoEvent EXCEPT !.ev = "Remove", !.pos = i]
+    /\ UNCHANGED mode
 
 (* the design's algorithm: scan the positions in order, stop at the first match *)
 RECURSIVE ScanFrom(_, _)
@@ -101,23 +126,43 @@ ScanDecider(p) == ScanFrom(0, p)
 
 MCCheck(p) ==
     LET d == ScanDecider(p) IN
+    /\ mode = "free"
     /\ hits'  = IF d = Implicit THEN hits ELSE [hits EXCEPT ![d] = @ + 1]
     /\ ihits' = IF d = Implicit THEN ihits + 1 ELSE ihits
-    /\ UNCHANGED <<npos, implicit, acl>>
+    /\ UNCHANGED <<npos, implicit, acl, mode>>
     /\ last' = [NoEvent EXCEPT !.ev = "Check", !.pkt = p, !.decider = d,
                                !.permit = ((IF d = Implicit THEN implicit ELSE acl[d].action) = "permit")]
 
-Next ==
-    \/ \E i \in Pos, r \in Rules : MCAdd(i, r)
-    \/ \E i \in Pos : MCRemove(i)
-    \/ \E p \in Packets : MCCheck(p)
+(* TLC splits a bounded quantifier over a *constant* set at the head of a Next disjunct into   *)
+(* one action per element, and -simulate picks actions uniformly.  The quantifiers below are   *)
+(* therefore split on purpose only by rule action (2), protocol (3) - giving behaviours with   *)
+(* about 1/3 Add, 1/2 Check, 1/6 Remove - and otherwise range over state-level sets.           *)
+AddStep    == \E a \in Acts : \E i \in Pos, r \in {x \in FreeRules : x.action = a} : MCAdd(i, r)
+FillStep   == \E i \in Pos, r \in CoverRules : MCFill(i, r)
+RemoveStep == \E i \in Pos : MCRemove(i)
+CheckStep  == \E q \in {"tcp", "udp", "icmp"} : \E i \in Pos, p \in {x \in Packets : x.proto = q} : i = 0 /\ MCCheck(p)
+
+Next == AddStep \/ FillStep \/ RemoveStep \/ CheckStep
 
 Spec == Init /\ [][Next]_mcvars
 
-View == <<npos, implicit, acl>>
+View == <<npos, implicit, acl, mode>>
 
 -----------------------------------------------------------------------------
-(* C07 clauses on the design, one action property each *)
+(* C07 clauses on the design *)
+
+\* in every reachable list, for every packet, the scan finds the deciding rule of the statement
+ScanIsLowestMatch == \A p \in Packets : ScanDecider(p) = Decider(acl, p)
+
+\* the declarative Decider read back against the statement's words: it matches, nothing below it
+\* does; none matches when the implicit rule decides ("free" lists only - a cross-check of Acl.tla)
+DeciderIsLowestMatch ==
+    mode = "free" =>
+    \A p \in Packets :
+        LET d == Decider(acl, p) IN
+        /\ d # Implicit => /\ acl[d] # NoRule /\ Matches(acl[d], p)
+                           /\ \A j \in Pos : j < d => (acl[j] = NoRule \/ ~Matches(acl[j], p))
+        /\ d = Implicit => \A j \in Pos : acl[j] = NoRule \/ ~Matches(acl[j], p)
 
 VerdictClause ==
     last'.ev = "Check" => /\ VerdictIsLowestMatch(last'.pkt, last'.permit)
